@@ -212,7 +212,7 @@ func minor(t *rapid.T) refchess.Pos {
 			return p
 		}
 	}
-	return refchess.MustFEN("8/8/8/8/8/2k5/8/KNB5 w - - 0 1")
+	return refchess.MustFEN("8/8/8/4k3/8/8/8/KNB5 w - - 0 1")
 }
 
 func TestC17(t *testing.T) {
